@@ -35,6 +35,80 @@ Open Scope Z_scope.
 """
 
 
+# ---------------------------------------------------------------------------- _get_active_backend
+# Reading of the source stated by this table:
+#   * `getattr(_backend, "config", default_parallel_config)` is the parameter backend_config : config (the thread's dict);
+#   * hints are integer codes: prefer 0 = None, 1 = 'threads', 2 = 'processes'; require 0 = None, 1 = 'sharedmem';
+#     membership in VALID_BACKEND_HINTS / VALID_BACKEND_CONSTRAINTS is valid_prefer / valid_require;
+#   * a backend object is its class and nesting_level (cbk); uses_threads / supports_sharedmem are class attributes;
+#     BACKENDS[DEFAULT_BACKEND] is the parameter dk (the registered default class), DEFAULT_THREAD_BACKEND = threading,
+#     DEFAULT_PROCESS_BACKEND = loky;
+#   * dict.copy() of the configuration is the configuration (a value); `thread_config["n_jobs"] = 1` is set_njobs;
+#   * the statement that only prints the replacement notice (`if verbose >= 10 and explicit_backend: print(...)`) is skipped.
+AB_PARAMS = [("dk", "ckind"), ("prefer", "option Z"), ("require", "option Z"), ("verbose", "option Z"),
+             ("backend_config", "config")]
+AB_CFG = {
+    "params": AB_PARAMS,
+    "env": {"backend_config": ("backend_config", "rec:config")},
+    "accessors": {"nesting_level": ("clevel", "Z")},
+    "subst": {
+        "_get_config_param(default_parallel_config['backend'], backend_config, 'backend')":
+            ("(gcp None (option_map Some (c_backend backend_config)) None)", "optZ"),
+        "_get_config_param(prefer, backend_config, 'prefer')": ("(gcp prefer (c_prefer backend_config) d_prefer)", "Z"),
+        "_get_config_param(require, backend_config, 'require')": ("(gcp require (c_require backend_config) d_require)", "Z"),
+        "_get_config_param(verbose, backend_config, 'verbose')": ("(gcp verbose (c_verbose backend_config) d_verbose)", "Z"),
+        "prefer not in VALID_BACKEND_HINTS": ("(negb (valid_prefer prefer))", "bool"),
+        "require not in VALID_BACKEND_CONSTRAINTS": ("(negb (valid_require require))", "bool"),
+        "prefer == 'processes'": ("(prefer =? 2)", "bool"),
+        "prefer == 'threads'": ("(prefer =? 1)", "bool"),
+        "require == 'sharedmem'": ("(require =? 1)", "bool"),
+        "BACKENDS[DEFAULT_BACKEND](nesting_level=0)": ("{| ck := dk; clevel := 0 |}", "Z"),
+        "BACKENDS[DEFAULT_THREAD_BACKEND](nesting_level=nesting_level)": ("{| ck := BThr; clevel := nesting_level |}", "Z"),
+        "BACKENDS[DEFAULT_PROCESS_BACKEND](nesting_level=nesting_level)": ("{| ck := BLoky; clevel := nesting_level |}", "Z"),
+        "getattr(backend, 'uses_threads', False)": ("(uses_threads (ck backend))", "bool"),
+        "getattr(backend, 'supports_sharedmem', False)": ("(supports_sharedmem (ck backend))", "bool"),
+        "backend_config.copy()": ("backend_config", "rec:config"),
+    },
+    "setitem": {"thread_config['n_jobs']": ("thread_config", "(set_njobs %s (Some (Some %s)))")},
+    "skip": ["backend_config = getattr(_backend, 'config', default_parallel_config)"],
+    "ret": "(cbk * config)",
+}
+
+
+def print_only_skips(path, qualname):
+    """`if <cond>: print(...)` statements: no effect on what the function returns"""
+    import ast
+    node, _ = translate.find_function(path, qualname)
+    out = []
+    for n in ast.walk(node):
+        if isinstance(n, ast.If) and not n.orelse and all(
+                isinstance(b, ast.Expr) and isinstance(b.value, ast.Call) and ast.unparse(b.value.func) == "print"
+                for b in n.body):
+            out.append(ast.unparse(n))
+    return out
+
+
+AB_HEADER = """(* REGENERATED on every run by harness/gen_c17.py from
+   joblib/parallel.py  (_get_active_backend).  Do not edit.  The reading table is in gen_c17.py. *)
+From Coq Require Import ZArith List Bool.
+Require Import JV.Base.PyPrelude JV.Model.Config.
+Import ListNotations.
+Open Scope Z_scope.
+
+"""
+
+
+def generate_active_backend(repo=None):
+    repo = repo or common.REPO
+    path = os.path.join(repo, "joblib", "parallel.py")
+    cfg = dict(AB_CFG)
+    cfg["skip"] = AB_CFG["skip"] + print_only_skips(path, "_get_active_backend")
+    code, skipped = translate.translate_function(path, "_get_active_backend", "src_get_active_backend", cfg)
+    out = os.path.join(common.COQ, "Gen", "T_active_backend.v")
+    changed = common.write_if_changed(out, AB_HEADER + code)
+    return out, changed, skipped
+
+
 def generate(repo=None):
     repo = repo or common.REPO
     path = os.path.join(repo, "joblib", "parallel.py")
@@ -46,5 +120,7 @@ def generate(repo=None):
 
 
 if __name__ == "__main__":
+    print(generate_active_backend())
+    print(open(os.path.join(common.COQ, "Gen", "T_active_backend.v")).read())
     print(generate())
     print(open(os.path.join(common.COQ, "Gen", "T_config_param.v")).read())
